@@ -316,6 +316,26 @@ Theorem C02_source_common_header_decoder_is_the_model : forall x, 0 <= x < 2 ^ 6
 Proof. exact src_common_decode. Qed.
 Print Assumptions C02_source_common_header_decoder_is_the_model.
 
+Theorem C02_source_gn_address_decoder_is_the_model : forall t, 0 <= t < 2 ^ 64 ->
+  GNAddress_decode (to_bytes 8 t) = option_map gnaddr_tuple (view_gnaddr (unpack gnaddr_ws t)).
+Proof. exact src_gnaddr_decode_word. Qed.
+Print Assumptions C02_source_gn_address_decoder_is_the_model.
+
+Theorem C02_source_long_position_vector_decoder_is_the_model : forall data, wf_bytes data = true -> (24 <= length data)%nat ->
+  LPV_decode data = option_map lpv_tuple (dec_lpv data).
+Proof. exact src_lpv_decode. Qed.
+Print Assumptions C02_source_long_position_vector_decoder_is_the_model.
+
+(* the decoder of the source returns exactly the field values its encoder put on the wire - two's complement latitude,
+   longitude and 15-bit speed beside the accuracy bit included - for ALL field values within their ranges *)
+Theorem C02_source_long_position_vector_roundtrip : forall m st mid tst lat lon pai s h,
+  0 <= m < 2 -> 0 <= st <= 12 -> wf_bytes mid = true -> length mid = 6%nat -> 0 <= tst < 2 ^ 32 ->
+  - 2 ^ 31 <= lat < 2 ^ 31 -> - 2 ^ 31 <= lon < 2 ^ 31 -> 0 <= pai < 2 -> - 2 ^ 14 <= s < 2 ^ 14 -> 0 <= h < 65536 ->
+  exists octets, LPV_encode m st mid tst lat lon pai s h = Some octets /\ length octets = 24%nat /\
+    LPV_decode octets = Some ((m, st, mid), tst, lat, lon, negb (pai =? 0), s, h).
+Proof. exact src_lpv_roundtrip. Qed.
+Print Assumptions C02_source_long_position_vector_roundtrip.
+
 Example C02_source_example :
   LPV_encode 0 5 [0; 0; 0; 0; 43; 103] 123456 (-338688000) (-1512093000) 1 (-300) 3599
   = Some (enc_lpv [0; 5; 11111; 123456; -338688000; -1512093000; 1; -300; 3599]).
